@@ -770,7 +770,8 @@ def energy_cases(draw):
                 dt=dt, rho=draw(st.integers(2, 8)) / 4.0,
                 nsteps=draw(st.integers(20, 40 if heavy else 60 if option == "quadrature_tol" else 100)),
                 vseed=draw(st.integers(0, 999)), vamp=round(vamp, 6), seed=draw(st.integers(0, 999)),
-                amp=draw(st.integers(0, 3)) / 20.0, clamp=draw(st.booleans()))
+                amp=draw(st.integers(0, 3)) / 20.0, clamp=draw(st.booleans()),
+                emag=draw(st.sampled_from([1.0, 1e-12, 1e-12, 1e6] if option == "quadrature_tol" else [1.0, 1.0, 1e-12, 1e6])))
 
 
 def _int_abs_dW(mat, groups, u0, u1, thickness):
@@ -792,7 +793,18 @@ def check_energy(case, rec):
     dim = gm.dim_of(mr["elemType"])
     mesh = hx.build_mesh(mr)
     g = _main_group(mesh)
-    simu, mat = _make_simu(case, mesh, g, dim, absTol=1e-8)
+    # unit of the moduli (and of the density, so that the motion is the same): every energy scales by emag, displacements do not
+    emag = float(case.get("emag", 1.0))
+    if emag != 1.0 and case["law"]["name"] in ("NeoHookean", "MooneyRivlin", "CiarletGeymonat", "SaintVenantKirchhoff"):
+        law = dict(case["law"])
+        for k_ in ("K", "K1", "K2", "lmbda", "mu"):
+            if k_ in law:
+                law[k_] = law[k_] * emag
+        case = dict(case, law=law, rho=case["rho"] * emag)
+        rec.label(f"emag:{emag:g}")
+    else:
+        emag = 1.0
+    simu, mat = _make_simu(case, mesh, g, dim, absTol=1e-8 * emag)
     pt = simu.problemType
     sig = dict(option=case["option"], law=case["law"]["name"], dim=dim)
     rec.label("energy:" + case["option"], "law:" + case["law"]["name"], "elem:" + mr["elemType"], f"dt:{case['dt']}",
@@ -878,7 +890,7 @@ SUBS = [
     Sub("operators", check_operator, gen=operator_cases, quick=160, thorough=600, shards=8),
     Sub("operator_grid", check_operator, enum=enum_operator_grid, doc="every operator x every element type"),
     Sub("system", check_system, gen=system_cases, quick=90, thorough=400, shards=6),
-    Sub("energy_conservation", check_energy, gen=energy_cases, quick=14, thorough=40, shards=10),
+    Sub("energy_conservation", check_energy, gen=energy_cases, quick=20, thorough=60, shards=10),
 ]
 
 LEVEL_TEXT = ("Hypothesis-generated deformation states, laws, element types, operator states and free-motion runs checked "
@@ -888,3 +900,23 @@ LEVEL_NOTE = ("stretches in [0.6,1.6] / det F>0.1, meshes of 1-12 elements, plan
               "exploration never establishes absence on unexplored states")
 TECHNIQUE = "property-based testing (Hypothesis) vs finite-difference, invariance and energy-balance oracles"
 DESIGN_REF = "DESIGN.md 4/C18"
+
+
+# ------------------------------------------------------------------------------------------
+# (added) the adaptive path quadrature in several unit systems: the same free motion with moduli and density multiplied by emag
+# (energies from 1e-17 to 1e+1): the acceptance test of the refinement must be relative
+
+
+def enum_energy_units(tier):
+    k = 0
+    for et, law in (("TRI3", dict(name="NeoHookean", K=0.25)), ("QUAD4", dict(name="MooneyRivlin", K1=0.5, K2=0.25, K=1.0)),
+                    ("TETRA4", dict(name="NeoHookean", K=0.5))):
+        for emag in (1e-12, 1.0, 1e6):
+            for tol in (1e-5, 1e-8):
+                k += 1
+                yield dict(mesh=dict(elemType=et, cells=1, layers=1, A=None, warp=0.0, wseed=0), law=dict(law), option="quadrature_tol",
+                           algo="midpoint", stress="quadrature", nPoints=1, tol=tol, thickness=1.0, dt=0.02, rho=0.5, nsteps=20, vseed=k,
+                           vamp=0.05 + 0.05 * (k % 3), seed=0, amp=0.0, clamp=bool(k % 2), emag=emag)
+
+
+SUBS.append(Sub("energy_units", check_energy, enum=enum_energy_units, doc="adaptive quadrature: the same motion in three unit systems"))
